@@ -4,6 +4,7 @@ import boot  # noqa: F401
 from yowsup.structs import ProtocolTreeNode as N
 
 JID = "4915112345@s.whatsapp.net"
+DEVJID = "4915112345:7@s.whatsapp.net"
 GJID = "4915112345-1500000000@g.us"
 
 TAGS = {"message": "message", "receipt": "receipt", "ack": "ack", "presence": "presence", "chatstate": "chatstate", "call": "call",
@@ -176,6 +177,13 @@ def build_stanza(d, seq=1):
     """descriptor dict -> ProtocolTreeNode; `lead` / `trail`: an element the library does not know before / after the stanza's own
     children (elements are looked up by name, never by position, so this changes nothing)"""
     node = _build_stanza(d, seq)
+    if d.get("dev"):
+        # the sender is one DEVICE of the account (user:device@server): whatever is answered goes back to that very address
+        attrs = dict(node.attributes)
+        for k in ("from", "participant"):
+            if attrs.get(k) == JID:
+                attrs[k] = DEVJID
+        node = N(node.tag, attrs, list(node.getAllChildren()), node.getData())
     if d.get("lead") or d.get("trail"):
         kids = list(node.getAllChildren())
         if d.get("lead"):
